@@ -140,7 +140,7 @@ Inductive input : Type :=
 Record dstate : Type := { d_n1 : subnet; d_n2 : subnet; d_table : table }.
 
 Definition configChanged (config current : subnetcfg) : bool :=
-  negb (addr_eqb (paddr (s_lan config)) (paddr (s_lan current)))
+  negb (prefix_eqb (pmasked (s_lan config)) (s_lan current))      (* network address and prefix length (e01fd08) *)
   || negb (addr_eqb (s_gw config) (s_gw current))
   || negb (addr_eqb (s_dns config) (s_dns current))
   || negb (addr_eqb (s_dhcp config) (s_dhcp current))
